@@ -79,33 +79,50 @@ Proof. induction a as [|d a IH]; intros b ar; cbn; [reflexivity|apply IH]. Qed.
 
 Definition fresh_above (n : nat) (ar : arrays) : Prop := forall a, n <= a -> alookup a ar = None.
 
+(* the declarations made between two lowering states: consecutive fresh addresses, lengths
+   consistent with the initial values *)
+Definition decl_wf (d : arrdecl) : Prop :=
+  match d with (_, n, Some l) => n = List.length l /\ n <> 0 | (_, n, None) => n <> 0 end.
+Definition dwf (ds : list arrdecl) (n n' : nat) : Prop :=
+  map (fun d : arrdecl => fst (fst d)) ds = seq n (List.length ds) /\ n' = n + List.length ds /\ Forall decl_wf ds.
+Lemma dwf_nil : forall n, dwf [] n n.
+Proof. intro n. unfold dwf. cbn. repeat split; [lia|constructor]. Qed.
+Lemma dwf_app : forall a b n1 n2 n3, dwf a n1 n2 -> dwf b n2 n3 -> dwf (a ++ b) n1 n3.
+Proof.
+  unfold dwf. intros a b n1 n2 n3 (A1 & A2 & A3) (B1 & B2 & B3). rewrite map_app, app_length, seq_app, A1, B1.
+  subst. repeat split; [lia|apply Forall_app; auto].
+Qed.
+
 Definition hf_stmt (s : stmt) : Prop :=
   wfs s = true -> forall st c st' ar,
   lower_stmt true s st = Ok (c, st') -> fresh_above (l_next st) ar ->
   exists ds, l_decl st' = l_decl st ++ ds /\ hoist_stmt s ar = declare_all ds ar /\
-             fresh_above (l_next st') (declare_all ds ar).
+             fresh_above (l_next st') (declare_all ds ar) /\ dwf ds (l_next st) (l_next st').
 Definition hf_block (b : block) : Prop :=
   bwfs b = true -> forall st c st' ar,
   lower_block true b st = Ok (c, st') -> fresh_above (l_next st) ar ->
   exists ds, l_decl st' = l_decl st ++ ds /\ hoist_block b ar = declare_all ds ar /\
-             fresh_above (l_next st') (declare_all ds ar).
+             fresh_above (l_next st') (declare_all ds ar) /\ dwf ds (l_next st) (l_next st').
 
 Lemma hf_nothing : forall s st st' ar,
   l_decl st' = l_decl st -> l_next st' = l_next st -> hoist_stmt s ar = ar -> fresh_above (l_next st) ar ->
   exists ds, l_decl st' = l_decl st ++ ds /\ hoist_stmt s ar = declare_all ds ar /\
-             fresh_above (l_next st') (declare_all ds ar).
+             fresh_above (l_next st') (declare_all ds ar) /\ dwf ds (l_next st) (l_next st').
 Proof.
-  intros s st st' ar E1 E2 E3 F. exists []. rewrite app_nil_r. cbn. rewrite E2. auto.
+  intros s st st' ar E1 E2 E3 F. exists []. rewrite app_nil_r. cbn. rewrite E2.
+  split; [exact E1|]. split; [exact E3|]. split; [exact F|apply dwf_nil].
 Qed.
 
 Lemma hf_declare : forall a n init st st1 ar,
   declare a n init st = Ok st1 -> fresh_above (l_next st) ar ->
   alookup a ar = None /\ l_decl st1 = l_decl st ++ [(a, n, init)] /\
-  fresh_above (l_next st1) (aset a (decl_content (a, n, init)) ar).
+  fresh_above (l_next st1) (aset a (decl_content (a, n, init)) ar) /\
+  (decl_wf (a, n, init) -> dwf [(a, n, init)] (l_next st) (l_next st1)).
 Proof.
   intros a n init st st1 ar H F. destruct (declare_facts _ _ _ _ _ H) as (Ea & En & _ & Ed & _).
-  split; [apply F; lia|]. split; [exact Ed|].
-  intros a' Ha'. rewrite En in Ha'. rewrite alookup_aset_other by lia. apply F. lia.
+  split; [apply F; lia|]. split; [exact Ed|]. split.
+  - intros a' Ha'. rewrite En in Ha'. rewrite alookup_aset_other by lia. apply F. lia.
+  - intro W. unfold dwf. cbn. subst a. repeat split; [lia|constructor; [exact W|constructor]].
 Qed.
 
 Theorem hoist_facts : (forall s, hf_stmt s) /\ (forall b, hf_block b).
@@ -129,9 +146,9 @@ Proof.
     destruct (declare a 1 None st) as [s0|] eqn:Ed; cbn [bind] in H; [|discriminate].
     destruct (low_meas q ip false s0) as [[[m c0] s1]|] eqn:Em; cbn [bind] in H; [|discriminate]. inv_ok H.
     destruct (low_meas_facts _ _ _ _ _ _ _ Em) as (id & _ & _ & _ & _ & N1 & _ & _ & _ & D1 & _).
-    destruct (hf_declare _ _ _ _ _ _ Ed F) as (Hn & Hd & Hf).
+    destruct (hf_declare _ _ _ _ _ _ Ed F) as (Hn & Hd & Hf & Hw).
     exists [(a, 1, None)]. rewrite D1, N1. split; [exact Hd|]. cbn [hoist_stmt declare_all fst decl_content].
-    rewrite Hn. split; [reflexivity|exact Hf].
+    rewrite Hn. split; [reflexivity|]. split; [exact Hf|]. apply Hw. cbn. discriminate.
   - intros q ip r _ st c st' ar H F. cbn [lower_stmt] in H.
     destruct (alook r (l_rf st)); [discriminate|].
     destruct (low_meas q ip true st) as [[[m c0] s1]|] eqn:Em; cbn [bind] in H; [|discriminate]. inv_ok H.
@@ -142,9 +159,11 @@ Proof.
   - (* SNewArray *) intros a len init _ st c st' ar H F. cbn [lower_stmt] in H.
     destruct (Nat.eqb (match init with Some l => List.length l | None => len end) 0) eqn:Ez; [discriminate|].
     destruct (declare a _ init st) as [s1|] eqn:Ed; cbn [bind] in H; [|discriminate]. inv_ok H.
-    destruct (hf_declare _ _ _ _ _ _ Ed F) as (Hn & Hd & Hf).
+    destruct (hf_declare _ _ _ _ _ _ Ed F) as (Hn & Hd & Hf & Hw).
     eexists. split; [exact Hd|]. cbn [hoist_stmt declare_all fst decl_content]. rewrite Hn.
-    destruct init as [l|]; rewrite Ez; split; try reflexivity; exact Hf.
+    apply Nat.eqb_neq in Ez.
+    destruct init as [l|]; (destruct (Nat.eqb _ 0) eqn:Ez'; [apply Nat.eqb_eq in Ez'; contradiction|]);
+      (split; [reflexivity|split; [exact Hf|apply Hw; cbn; auto]]).
   - (* SFutAdd *) intros a ix o m _ st c st' ar H F. cbn [lower_stmt] in H.
     destruct (low_ix ix st); cbn [bind] in H; [|discriminate].
     destruct (take st) as [[t s1]|] eqn:Ht; cbn [bind] in H; [|discriminate].
@@ -167,9 +186,10 @@ Proof.
   - (* SIf *) intros c cb x y body IH Hw st code st' ar H F. cbn [wfs] in Hw.
     apply andb_prop in Hw. destruct Hw as [_ Hwf]. cbn [lower_stmt] in H.
     destruct (lower_block true body st) as [[cbody s1]|] eqn:Hb; cbn [bind] in H; [|discriminate].
-    destruct (IH Hwf _ _ _ ar Hb F) as (ds & D1 & H1 & F1).
+    destruct (IH Hwf _ _ _ ar Hb F) as (ds & D1 & H1 & F1 & W1).
     assert (Fin : forall sF, sba s1 sF -> exists ds0, l_decl sF = l_decl st ++ ds0 /\
-               hoist_stmt (SIf c cb x y body) ar = declare_all ds0 ar /\ fresh_above (l_next sF) (declare_all ds0 ar)).
+               hoist_stmt (SIf c cb x y body) ar = declare_all ds0 ar /\ fresh_above (l_next sF) (declare_all ds0 ar) /\
+               dwf ds0 (l_next st) (l_next sF)).
     { intros sF (_ & _ & N & _ & _ & _ & _ & D). exists ds. rewrite D, N. auto. }
     destruct (is_nil cbody); [inv_ok H; apply Fin, sba_refl|].
     destruct (low_cval x s1) as [[[[lx px] tx] s2]|] eqn:Hx; cbn [bind] in H; [|discriminate].
@@ -186,8 +206,8 @@ Proof.
     destruct (take st) as [[r s1]|] eqn:Ht; cbn [bind] in H; [|discriminate].
     destruct (lower_block true body (bind_lvr v r s1)) as [[cbody s2]|] eqn:Hb; cbn [bind] in H; [|discriminate].
     destruct (sba_take _ _ _ Ht) as (_ & _ & N0 & _ & _ & _ & _ & D0).
-    destruct (IH Hwf _ _ _ ar Hb) as (ds & D1 & H1 & F1); [cbn; rewrite N0; exact F|].
-    cbn in D1, F1. exists ds. destruct (is_nil cbody); inv_ok H; cbn; rewrite D1, D0; auto.
+    destruct (IH Hwf _ _ _ ar Hb) as (ds & D1 & H1 & F1 & W1); [cbn; rewrite N0; exact F|].
+    cbn in D1, F1, W1. rewrite N0 in W1. exists ds. destruct (is_nil cbody); inv_ok H; cbn; rewrite D1, D0; auto.
   - (* SForeach *) intros enum v a body IH Hw st code st' ar H F.
     cbn [wfs] in Hw. apply andb_prop in Hw. destruct Hw as [_ Hwf]. cbn [lower_stmt] in H.
     destruct (alook a (l_len st)); [|discriminate].
@@ -195,8 +215,8 @@ Proof.
     destruct (take st) as [[r s1]|] eqn:Ht; cbn [bind] in H; [|discriminate].
     destruct (lower_block true body (bind_lvr v r s1)) as [[cbody s2]|] eqn:Hb; cbn [bind] in H; [|discriminate].
     destruct (sba_take _ _ _ Ht) as (_ & _ & N0 & _ & _ & _ & _ & D0).
-    destruct (IH Hwf _ _ _ ar Hb) as (ds & D1 & H1 & F1); [cbn; rewrite N0; exact F|].
-    cbn in D1, F1. exists ds. destruct (is_nil cbody); inv_ok H; cbn; rewrite D1, D0; auto.
+    destruct (IH Hwf _ _ _ ar Hb) as (ds & D1 & H1 & F1 & W1); [cbn; rewrite N0; exact F|].
+    cbn in D1, F1, W1. rewrite N0 in W1. exists ds. destruct (is_nil cbody); inv_ok H; cbn; rewrite D1, D0; auto.
   - (* SLoopUntil *) intros v maxit body IHb cx bound cleanup IHc Hw st code st' ar H F.
     cbn [wfs] in Hw.
     apply andb_prop in Hw. destruct Hw as [Hw Hem]. apply andb_prop in Hw. destruct Hw as [Hw _].
@@ -206,25 +226,28 @@ Proof.
     destruct (take st) as [[r s1]|] eqn:Ht; cbn [bind] in H; [|discriminate].
     destruct (sba_take _ _ _ Ht) as (_ & _ & N0 & _ & _ & _ & _ & D0).
     destruct (lower_block true body (bind_lvr v r s1)) as [[cbody s2]|] eqn:Hb; cbn [bind] in H; [|discriminate].
-    destruct (IHb Hwf1 _ _ _ ar Hb) as (ds1 & D1 & H1 & F1); [cbn; rewrite N0; exact F|]. cbn in D1, F1.
+    destruct (IHb Hwf1 _ _ _ ar Hb) as (ds1 & D1 & H1 & F1 & W1); [cbn; rewrite N0; exact F|]. cbn in D1, F1, W1.
+    rewrite N0 in W1.
     assert (Hne := emits_nonnil _ _ _ _ Hem Hb).
     destruct cbody as [|c0 cr]; [contradiction|]. cbn [is_nil] in H.
     destruct (low_cval cx s2) as [[[[lx px] tx] s3]|] eqn:Hx; cbn [bind] in H; [|discriminate].
       assert (S3 : sba s2 (release_all tx s3)) by (eapply sba_trans; [eapply low_cval_sba; eauto|apply sba_release_all]).
       destruct S3 as (_ & _ & N3 & _ & _ & _ & _ & D3).
       destruct (lower_block true cleanup (release_all tx s3)) as [[ccl s4]|] eqn:Hc; cbn [bind] in H; [|discriminate].
-      destruct (IHc Hwf2 _ _ _ (declare_all ds1 ar) Hc) as (ds2 & D2 & H2 & F2); [rewrite N3; exact F1|].
+      destruct (IHc Hwf2 _ _ _ (declare_all ds1 ar) Hc) as (ds2 & D2 & H2 & F2 & W2); [rewrite N3; exact F1|].
+      rewrite N3 in W2.
       inv_ok H. exists (ds1 ++ ds2). cbn. rewrite D2, D3, D1, D0, app_assoc. cbn [hoist_stmt].
-      rewrite H1, H2, declare_all_app. auto.
+      rewrite H1, H2, declare_all_app. split; [auto|split; [auto|split; [auto|eapply dwf_app; eauto]]].
   - intros k body IH Hw. discriminate.
   - intros Hw. discriminate.
-  - intros _ st c st' ar H F. inv_ok H. exists []. rewrite app_nil_r. cbn. auto.
+  - intros _ st c st' ar H F. inv_ok H. exists []. rewrite app_nil_r. cbn. split; [auto|split; [auto|split; [auto|apply dwf_nil]]].
   - intros s IHs b IHb Hw st c st' ar H F. cbn [bwfs] in Hw.
     apply andb_prop in Hw. destruct Hw as [Hw1 Hw2].
     cbn [lower_block] in H.
     destruct (lower_stmt true s st) as [[c1 s1]|] eqn:H1; cbn [bind] in H; [|discriminate].
     destruct (lower_block true b s1) as [[c2 s2]|] eqn:H2; cbn [bind] in H; [|discriminate]. inv_ok H.
-    destruct (IHs Hw1 _ _ _ ar H1 F) as (d1 & D1 & E1 & F1).
-    destruct (IHb Hw2 _ _ _ _ H2 F1) as (d2 & D2 & E2 & F2).
-    exists (d1 ++ d2). rewrite D2, D1, app_assoc. cbn [hoist_block]. rewrite E1, E2, declare_all_app. auto.
+    destruct (IHs Hw1 _ _ _ ar H1 F) as (d1 & D1 & E1 & F1 & W1).
+    destruct (IHb Hw2 _ _ _ _ H2 F1) as (d2 & D2 & E2 & F2 & W2).
+    exists (d1 ++ d2). rewrite D2, D1, app_assoc. cbn [hoist_block]. rewrite E1, E2, declare_all_app.
+    split; [auto|split; [auto|split; [auto|eapply dwf_app; eauto]]].
 Qed.
